@@ -646,7 +646,7 @@ mvars == <<vars, mprog, mlang, mtrace, gprog, gdone>>
 Idle == mprog = <<>> /\ mlang = "" /\ mtrace = <<>> /\ gprog = <<>> /\ gdone = TRUE       \* the variables of the other roles of this module
 MEv == mtrace[l]
 MHas == l <= Len(mtrace)
-MDraws == IF Mode = "mcfull" THEN {Fix(d) : d \in RawDraws} ELSE SubStylesBig
+MDraws == IF Mode = "mcfull" THEN {Fix(d) : d \in RawDraws} ELSE IF Mode = "mcq" THEN SubStylesMid ELSE SubStylesBig
 MInit == /\ IInit /\ l = 1 /\ mlang \in {"pdf", "ps", "svg"} /\ gprog = <<>> /\ gdone = TRUE
          /\ mprog \in IF Mode = "mcfull" THEN {<<d>> : d \in RandomSubset(Num, MDraws)}
                       ELSE {<<d>> : d \in MDraws} \cup {<<c, d>> : c \in RandomSubset(Num, MDraws), d \in RandomSubset(Num, MDraws)}
@@ -669,7 +669,8 @@ MComplete == (~MHas) => (k = Len(queue) /\ stk = <<>> /\ Len(queue) = Len(ExpQue
 \* scenario generator: drawing programs, printed with the requested paints (for the record) and their features
 \* ---------------------------------------------------------------------------------------------
 ASSUME PrintT("@@" \o ToJson(Header))
-Progs == IF Mode = "hdr" THEN {<<>>} ELSE IF Mode = "solidoff" THEN {<<d>> : d \in SolidOff} ELSE IF Mode = "sub2" THEN {<<d>> : d \in SubStyles} \cup {<<c, d>> : c \in SubStyles, d \in SubStyles}
+Progs == IF Mode = "hdr" THEN {<<>>} ELSE IF Mode = "solidoff" THEN {<<d>> : d \in SolidOff} ELSE IF Mode = "sub2" THEN {<<d>> : d \in SubStyles} \cup (IF Num = 0 THEN {<<c, d>> : c \in SubStyles, d \in SubStyles}
+                                                                ELSE RandomSubset(Num, {<<c, d>> : c \in SubStyles, d \in SubStyles}))
          ELSE IF Mode = "sub2big" THEN {<<c, d>> : c \in SubStylesMid, d \in SubStylesMid}
          ELSE {[i \in 1..PLen |-> Fix(f[i])] : f \in RandomSubset(Num, [1..PLen -> RawDraws])}
 GInit == gprog \in Progs /\ gdone = FALSE /\ IInit /\ l = 1 /\ mprog = <<>> /\ mlang = "" /\ mtrace = <<>>
